@@ -25,6 +25,13 @@ Contents
 * §14    ONE language `E` for all dimensions with the dimension-changing nodes (`to_Vector2D/3D`, `to_Vector3D(z/theta/eta=)`,
          `to_Vector4D(t/tau=)`, `boost_beta3`): `c01e_eval`, `c01e_indep`, scalars `c01e_evalSU`, `c01e_indepSU`, `exEU_generic`.
 * §15    FINDING `c01e_phi_jump`: `v.rotateZ(0).phi` is `-π` for `(ρ, φ) = (1, π)` and `+π` for `(x, y) = (-1, 0)`.
+* §16    helpers `c01e_boostX/Y/Z_timelike`, `c01e_generic4_boostX`: axis boosts with `|β| < 1` keep forward time-like-ness.
+
+Not covered (see the final report of the task): 4D unary minus (a τ-stored vector cannot denote `t < 0`,
+`c11m_neg_tau_discrepancy`), the `gamma=` forms of the axis boosts, `boostCM_of*`, `to_beta3`, `rotate_axis/euler/
+quaternion`, `transform*`, `scale2D/3D` (documented exceptions), the truth-valued methods (`equal`, `isclose`,
+`is_parallel`, …), lower-dimensional `to_<system>` projections (`to_xy` on a 3D vector, …), mixed 3D/4D operands of the
+angular methods.
 -/
 import VectorModel.Props.C01Method
 import VectorModel.Props.MethodBin
@@ -2754,6 +2761,74 @@ theorem c01e_phi_jump (K : Consts ℝ) (A : Arith ℝ) :
       rw [hatan]
     simp only [evalMSU, evalMU, un, unS, e1, vecOf]
     exact e2
+
+/-! ## 16. Helper for discharging `GenericAll4`: axis boosts with `|β| < 1` preserve forward time-like-ness
+
+(so at a boost node only the spatial genericity of the boosted value has to be checked) -/
+
+private theorem boost_t_pos {g β u t : ℝ} (hg : 0 < g) (hβ : |β| < 1) (hu : u ^ 2 < t ^ 2) (ht : 0 < t) :
+    0 < β * g * u + g * t := by
+  have hu' : |u| < t := by
+    have := abs_lt_of_sq_lt_sq hu ht.le
+    exact this
+  have h1 : |β * u| < t := by
+    rw [abs_mul]
+    calc |β| * |u| ≤ 1 * |u| := mul_le_mul_of_nonneg_right hβ.le (abs_nonneg u)
+      _ = |u| := one_mul _
+      _ < t := hu'
+  have h2 : 0 < β * u + t := by linarith [(abs_lt.mp h1).1]
+  have := mul_pos hg h2
+  nlinarith
+
+theorem c01e_boostX_timelike (β : ℝ) (hβ : |β| < 1) (x y z t : ℝ) (h : x ^ 2 + y ^ 2 + z ^ 2 < t ^ 2) (ht : 0 < t) :
+    (bXβ β (x, y, z, t)).1 ^ 2 + (bXβ β (x, y, z, t)).2.1 ^ 2 + (bXβ β (x, y, z, t)).2.2.1 ^ 2
+        < (bXβ β (x, y, z, t)).2.2.2 ^ 2 ∧ 0 < (bXβ β (x, y, z, t)).2.2.2 := by
+  have hm := c09_boostX_beta_mdot β (x, y, z, t) (x, y, z, t) hβ
+  simp only [VR.mdot] at hm
+  have hβ2 : β ^ 2 < 1 := by
+    have := abs_lt.mp hβ
+    nlinarith
+  have hg : 0 < P.rpow (1 - β ^ 2) (-(0.5 : ℝ)) := Real.rpow_pos_of_pos (by linarith) _
+  have htp : 0 < (bXβ β (x, y, z, t)).2.2.2 := by
+    show 0 < β * P.rpow (1 - β ^ 2) (-(0.5 : ℝ)) * x + P.rpow (1 - β ^ 2) (-(0.5 : ℝ)) * t
+    exact boost_t_pos hg hβ (by nlinarith [sq_nonneg y, sq_nonneg z]) ht
+  exact ⟨by nlinarith, htp⟩
+
+theorem c01e_boostY_timelike (β : ℝ) (hβ : |β| < 1) (x y z t : ℝ) (h : x ^ 2 + y ^ 2 + z ^ 2 < t ^ 2) (ht : 0 < t) :
+    (bYβ β (x, y, z, t)).1 ^ 2 + (bYβ β (x, y, z, t)).2.1 ^ 2 + (bYβ β (x, y, z, t)).2.2.1 ^ 2
+        < (bYβ β (x, y, z, t)).2.2.2 ^ 2 ∧ 0 < (bYβ β (x, y, z, t)).2.2.2 := by
+  have hm := c09_boostY_beta_mdot β (x, y, z, t) (x, y, z, t) hβ
+  simp only [VR.mdot] at hm
+  have hβ2 : β ^ 2 < 1 := by
+    have := abs_lt.mp hβ
+    nlinarith
+  have hg : 0 < P.rpow (1 - β ^ 2) (-(0.5 : ℝ)) := Real.rpow_pos_of_pos (by linarith) _
+  have htp : 0 < (bYβ β (x, y, z, t)).2.2.2 := by
+    show 0 < β * P.rpow (1 - β ^ 2) (-(0.5 : ℝ)) * y + P.rpow (1 - β ^ 2) (-(0.5 : ℝ)) * t
+    exact boost_t_pos hg hβ (by nlinarith [sq_nonneg x, sq_nonneg z]) ht
+  exact ⟨by nlinarith, htp⟩
+
+theorem c01e_boostZ_timelike (β : ℝ) (hβ : |β| < 1) (x y z t : ℝ) (h : x ^ 2 + y ^ 2 + z ^ 2 < t ^ 2) (ht : 0 < t) :
+    (bZβ β (x, y, z, t)).1 ^ 2 + (bZβ β (x, y, z, t)).2.1 ^ 2 + (bZβ β (x, y, z, t)).2.2.1 ^ 2
+        < (bZβ β (x, y, z, t)).2.2.2 ^ 2 ∧ 0 < (bZβ β (x, y, z, t)).2.2.2 := by
+  have hm := c09_boostZ_beta_mdot β (x, y, z, t) (x, y, z, t) hβ
+  simp only [VR.mdot] at hm
+  have hβ2 : β ^ 2 < 1 := by
+    have := abs_lt.mp hβ
+    nlinarith
+  have hg : 0 < P.rpow (1 - β ^ 2) (-(0.5 : ℝ)) := Real.rpow_pos_of_pos (by linarith) _
+  have htp : 0 < (bZβ β (x, y, z, t)).2.2.2 := by
+    show 0 < β * P.rpow (1 - β ^ 2) (-(0.5 : ℝ)) * z + P.rpow (1 - β ^ 2) (-(0.5 : ℝ)) * t
+    exact boost_t_pos hg hβ (by nlinarith [sq_nonneg x, sq_nonneg y]) ht
+  exact ⟨by nlinarith, htp⟩
+
+/-- hence: at a `boostX` node of `E4` the time-like part of `Generic4` comes for free -/
+theorem c01e_generic4_boostX (β : ℝ) (hβ : |β| < 1) {p : List ℝ} (hp : Generic4 p)
+    (hs : ∀ x y z t, p = [x, y, z, t] → 0 < (bXβ β (x, y, z, t)).1 ^ 2 + (bXβ β (x, y, z, t)).2.1 ^ 2) :
+    Generic4 (on4 (bXβ β) p) := by
+  obtain ⟨x, y, z, t, rfl, h1, h2, h3, h4⟩ := hp
+  obtain ⟨h5, h6⟩ := c01e_boostX_timelike β hβ x y z t h3 h4
+  exact ⟨_, _, _, _, rfl, hs x y z t rfl, h2, h5, h6⟩
 
 end C01E
 end VR
